@@ -135,6 +135,11 @@ Proof.
     intros s0. specialize (Hb s0). unfold pending in *. simpl.
     rewrite cntp_app. rewrite cntp_all_internal by reflexivity.
     unfold on_sess, upd. simpl. destruct (Nat.eqb_spec s0 s); subst; simpl; lia.
+  - (* HubUnregFail *)
+    destruct (c_hunreg c) as [|[tq|r] rest]; try discriminate; simpl in Hs.
+    destruct (c_table c (r_topic r)) as [i|].
+    + destruct (is_init (i_phase (c_inst c i))); [discriminate|]. inv_some; fin Hb.
+    + destruct (c_store c (r_topic r)); [|discriminate]. inv_some; fin Hb.
 Qed.
 
 
@@ -233,6 +238,11 @@ Proof.
     destruct (Nat.eqb_spec s0 s) as [->|Hne].
     + right. right. simpl. unfold on_sess, upd. simpl. rewrite Nat.eqb_refl. simpl. repeat split; auto.
     + left. simpl. unfold on_sess, upd. simpl. destruct (Nat.eqb_spec s0 s); [contradiction|]. auto.
+  - (* HubUnregFail *)
+    destruct (c_hunreg c) as [|[tq|r] rest]; try discriminate; simpl in Hs.
+    destruct (c_table c (r_topic r)) as [i|].
+    + destruct (is_init (i_phase (c_inst c i))); [discriminate|]. inv_some; left; simpl; unfold on_sess, on_inst, upd; simpl; deq; autorewrite with lc; simpl; auto.
+    + destruct (c_store c (r_topic r)); [|discriminate]. inv_some; left; simpl; unfold on_sess, on_inst, upd; simpl; deq; autorewrite with lc; simpl; auto.
 Qed.
 
 Definition done_flags (c : config) : Prop :=
@@ -326,6 +336,11 @@ Proof.
   - exec_split Hs; inv_some; (eapply del_exit_same; [|exact H]); same_del_tac.
   - exec_split Hs; inv_some; (eapply del_exit_same; [|exact H]); same_del_tac.
   - exec_split Hs; inv_some; (eapply del_exit_same; [|exact H]); same_del_tac.
+  - (* HubUnregFail *)
+    destruct (c_hunreg c) as [|[tq|r] rest]; try discriminate; simpl in Hs.
+    destruct (c_table c (r_topic r)) as [i|].
+    + destruct (is_init (i_phase (c_inst c i))); [discriminate|]. inv_some; (eapply del_exit_same; [|exact H]); same_del_tac.
+    + destruct (c_store c (r_topic r)); [|discriminate]. inv_some; (eapply del_exit_same; [|exact H]); same_del_tac.
 Qed.
 
 Lemma del_exit_reach : forall st ow us c, reach st ow us c -> del_exit c.
@@ -517,6 +532,11 @@ Proof.
       exists (mkReq s 0 (KLeave false) (i_name (c_inst c j)) false false). split; [|auto].
       apply in_or_app. right. apply in_map_iff. exists (i_name (c_inst c j), j). split; auto.
     + destruct (H s0 j A B C) as [X|(q & X & Y)]; [left; auto|right]. exists q. split; auto. apply in_or_app. auto.
+  - (* HubUnregFail *)
+    destruct (c_hunreg c) as [|[tq|r] rest]; try discriminate; simpl in Hs.
+    destruct (c_table c (r_topic r)) as [i|].
+    + destruct (is_init (i_phase (c_inst c i))); [discriminate|]. inv_some; mono_tac H.
+    + destruct (c_store c (r_topic r)); [|discriminate]. inv_some; mono_tac H.
 Qed.
 
 Lemma done_leave_reach : forall st ow us c, reach st ow us c -> done_leave c.
@@ -704,6 +724,11 @@ Proof.
   - exec_split Hs; inv_some; constructor; simpl; auto.
   - exec_split Hs; inv_some; constructor; simpl; auto.
   - exec_split Hs; inv_some; constructor; simpl; auto.
+  - (* HubUnregFail *)
+    destruct (c_hunreg c) as [|[tq|r] rest]; try discriminate; simpl in Hs.
+    destruct (c_table c (r_topic r)) as [i|].
+    + destruct (is_init (i_phase (c_inst c i))); [discriminate|]. inv_some; constructor; simpl; auto.
+    + destruct (c_store c (r_topic r)); [|discriminate]. inv_some; constructor; simpl; auto.
 Qed.
 
 Lemma inv_tbl_reach : forall st ow us c, reach st ow us c -> inv_tbl c.
@@ -721,7 +746,7 @@ Qed.
 (* the topic row never comes back *)
 Lemma store_false_step : forall c l c' t, step c l c' -> c_store c t = false -> c_store c' t = false.
 Proof.
-  intros c l c' t Hs H. unfold step in Hs. destruct l as [s0 t0 ch0|s0 t0 u0 ch0|s0 t0| |i ok|i ok|i|i s0|i|vis|i|s0|s0|s0]; simpl in Hs.
+  intros c l c' t Hs H. unfold step in Hs. destruct l as [s0 t0 ch0|s0 t0 u0 ch0|s0 t0| |i ok|i ok|i|i s0|i|vis|i|s0|s0|s0|]; simpl in Hs.
   - exec_split Hs; inv_some; simpl; auto.
   - exec_split Hs; inv_some; simpl; auto.
   - exec_split Hs; inv_some; simpl; auto.
@@ -749,6 +774,11 @@ Proof.
   - exec_split Hs; inv_some; simpl; auto.
   - exec_split Hs; inv_some; simpl; auto.
   - exec_split Hs; inv_some; simpl; auto.
+  - (* HubUnregFail *)
+    destruct (c_hunreg c) as [|[tq|r] rest]; try discriminate; simpl in Hs.
+    destruct (c_table c (r_topic r)) as [i|].
+    + destruct (is_init (i_phase (c_inst c i))); [discriminate|]. inv_some; simpl; auto.
+    + destruct (c_store c (r_topic r)); [|discriminate]. inv_some; simpl; auto.
 Qed.
 
 (* the hub's answer to a {sub} for a topic whose row is gone: "locked", or a fresh load *)
